@@ -126,6 +126,15 @@ def run_tlc(ctx, module, cfg, workers=None, extra=None, env_extra=None, timeout=
     m = None
     for m in STATS_RE.finditer(out):
         pass
+    if m is None:
+        sm = re.search(r"The number of states generated: (\d+)", out)
+        if sm:
+            class _M:
+                def __init__(self, n):
+                    self.n = n
+                def group(self, i):
+                    return self.n
+            m = _M(sm.group(1))
     rec = {"module": module, "cfg": cfg, "overrides": overrides or {}, "wall_s": round(wall, 2), "rc": rc,
            "states_generated": int(m.group(1)) if m else 0, "distinct_states": int(m.group(2)) if m else 0,
            "mode": "simulate" if simulate else "bfs"}
